@@ -42,7 +42,7 @@ Proof. induction l; destruct i; simpl; intros; try discriminate; auto. congruenc
 
 (* ---- mark_unw only sets the unwinding flag ---- *)
 Lemma mark_unw_nth : forall ds l j k r, nth_error l k = Some r ->
-  exists b, nth_error (mark_unw ds j l) k = Some (mkR (stk r) b (got r) (acc r) (log r)) /\ (b = unw r \/ b = true).
+  exists b, nth_error (mark_unw ds j l) k = Some (mkR (stk r) b (ext r) (got r) (acc r) (log r)) /\ (b = unw r \/ b = true).
 Proof.
   induction l; destruct k; simpl; intros; try discriminate.
   - inversion H; subst. destruct (existsb _ ds).
@@ -122,7 +122,19 @@ Inductive Step : state -> Prop :=
 | SLock : forall m body ops', unw r = false -> fops f = OLock m body :: ops' -> nth_error (mus s) m = Some None ->
     Step (set_rm s i (set_stk (adv ops') (mkF (KLock m) body :: stk (adv ops'))) m (Some i))
 | SCatch : forall body ops', unw r = false -> fops f = OCatch body :: ops' ->
-    Step (set_r s i (set_stk (adv ops') (mkF KCatch body :: stk (adv ops')))).
+    Step (set_r s i (set_stk (adv ops') (mkF KCatch body :: stk (adv ops'))))
+| SBlock : forall tb b body ops', unw r = false -> fops f = OBlock tb b body :: ops' ->
+    Step (set_r s i (set_stk (adv ops') (mkF (KBlock tb b) body :: stk (adv ops'))))
+| SExit : forall tb b ops', unw r = false -> fops f = OExit tb b :: ops' -> Step (set_r s i (set_ext (adv ops') (Some (tb, b))))
+| SExitFail : forall tb b ops', unw r = false -> fops f = OExit tb b :: ops' -> Step (raise s i (adv ops'))
+(* an exit marker on its way up: the frame is left (keeping or consuming the marker), a lock frame is left and
+   unlocked, or the frame carries on and the marker is dropped *)
+| SUnwBlock : forall tb b, unw r = true -> fk f = KBlock tb b -> Step (set_r s i (set_stk r rest))
+| SExtPop : forall e e', unw r = false -> ext r = Some e -> (forall m, fk f <> KLock m) ->
+    Step (set_r s i (set_ext (set_stk r rest) e'))
+| SExtPopLock : forall e m, unw r = false -> ext r = Some e -> fk f = KLock m -> fops f = [] ->
+    Step (set_rm s i (set_stk r rest) m None)
+| SExtDrop : forall e, unw r = false -> ext r = Some e -> Step (set_r s i (set_ext r None)).
 End StepRel.
 
 Lemma step_Step : forall s i k s', step s i k = Some s' ->
@@ -138,10 +150,27 @@ Proof.
     + apply SUnwPlain; auto.
     + eapply SUnwLock; eauto.
     + apply SUnwCatch; auto.
-  - destruct (fops f) as [|o ops'] eqn:O.
+    + eapply SUnwBlock; eauto.
+  - destruct (ext r) as [[tb b]|] eqn:EX.
+    { assert (POP : forall e', (forall m, fk f <> KLock m) -> Step s i r f rest (set_r s i (set_ext (set_stk r rest) e'))).
+      { intros. eapply SExtPop; eauto. }
+      assert (POP0 : (forall m, fk f <> KLock m) -> Step s i r f rest (set_r s i (set_stk r rest))).
+      { intros N. exact (POP (ext r) N). }
+      assert (DROP : Step s i r f rest (set_r s i (set_ext r None))) by (eapply SExtDrop; eauto).
+      destruct (fk f) eqn:K.
+      - inversion H; subst. apply POP0. intros; congruence.
+      - destruct (fops f) eqn:O; inversion H; subst; auto. eapply SExtPopLock; eauto.
+      - destruct (fops f) eqn:O; inversion H; subst; auto. apply POP0. intros; congruence.
+      - destruct tb0.
+        + destruct tb; inversion H; subst; auto. apply POP. intros; congruence.
+        + destruct tb.
+          * destruct (fops f) eqn:O; inversion H; subst; auto. apply POP0. intros; congruence.
+          * inversion H; subst. apply POP. intros; congruence. }
+    destruct (fops f) as [|o ops'] eqn:O.
     + destruct (fk f) eqn:K; inversion H; subst.
       * apply SExitOther; auto. intros; congruence.
       * eapply SExitLock; eauto.
+      * apply SExitOther; auto. intros; congruence.
       * apply SExitOther; auto. intros; congruence.
     + unfold exec in H. fold (adv r f rest ops') in H.
       destruct o.
@@ -167,6 +196,10 @@ Proof.
       * inversion H; subst. eapply SFail; eauto.
       * destruct (nth_error (mus s) m) as [[j|]|] eqn:M; inversion H; subst. eapply SLock; eauto.
       * inversion H; subst. eapply SCatch; eauto.
+      * inversion H; subst. eapply SBlock; eauto.
+      * destruct (existsb _ (stk (adv r f rest ops'))); inversion H; subst.
+        -- eapply SExit; eauto.
+        -- eapply SExitFail; eauto.
 Qed.
 
 (* reachability: some schedule leads from the initial state to s *)
